@@ -5,6 +5,7 @@ cd /repo || exit 2
 if [ -n "$(git status --porcelain --untracked-files=no)" ]; then echo "/repo not clean"; exit 2; fi
 git apply "$patch" || { echo "patch does not apply"; exit 2; }
 cd /verif
+rm -rf /tmp/evidence_keep; cp -r /verif/evidence /tmp/evidence_keep
 for id in "$@"; do
   tier=${TIER:-quick}
   start=$(date +%s)
@@ -15,3 +16,5 @@ for id in "$@"; do
 done
 git -C /repo checkout -- .
 rm -rf /verif/replays/C*
+# evidence files describe runs on the unchanged tree only: restore them
+rm -rf /verif/evidence; cp -r /tmp/evidence_keep /verif/evidence
